@@ -10,7 +10,7 @@ package ledger
 // [fv,lv] inside [1,R+1] with lv-fv <= MaxTxnLife = 4); they differ in nothing else, so the
 // txid is a function of (sender, lease, window). R = 6 (quick) / 8 (thorough).
 //
-// A *scenario* picks 3 (two: 4; quick has 7 incl. two same-lease triples "take, expire, re-take,
+// A *scenario* picks 2-4 (quick: 5 scenarios incl. two same-lease triples "take, expire, re-take,
 // contend"; thorough adds all 20 same-lease triples over 6 windows and all 28 pairs over 8
 // windows) transactions of U that may be committed. Operations:
 //   blk(S)   for every S subset of the scenario, |S| <= 2 (incl. the empty block): build block
@@ -414,13 +414,14 @@ func (s *c11Sys) apply(op int, masks []uint) (bool, error) {
 //
 // Kept exactly: latest round, tracker DB round, per scenario txn {uncommitted, committed and
 // still inside its window, dead}, txTail.lowWaterMark;
-//   * txid index: the entries of txTail.lastValid and of the persisted rows with lastValid >=
+//   - txid index: the entries of txTail.lastValid and of the persisted rows with lastValid >=
 //     Latest+1. checkDup indexes lastValid[lv] with the lv of the queried transaction, and a
 //     queried transaction with lv < current is dead (rejected by the window check, and a
 //     future loadFromDisk only keeps lastValid > Latest), so older buckets cannot be reached;
-//   * leases: EVERY (round, sender, lease, expiry) record txTail.recent and the persisted rows
+//   - leases: EVERY (round, sender, lease, expiry) record txTail.recent and the persisted rows
 //     still hold, expired ones included: checkDup scans all rounds of the last MaxTxnLife, so
 //     an expired record is still visited.
+//
 // Dropped: the confirmation-round delta stored next to a txid (only CheckConfirmedTail reads
 // it), the block-header cache and the not-yet-persisted serialized deltas (functions of the
 // block history, which the blockQueue holds).
@@ -525,6 +526,7 @@ func c11Scenarios() []c11Scenario {
 		{"lease-isolation", [][4]int{{A, 1, 1, 5}, {B, 1, 1, 5}, {A, 2, 2, 6}}},
 		{"lease-short", [][4]int{{A, 1, 1, 1}, {A, 1, 2, 2}, {A, 0, 1, 5}}},
 		{"lease-late", [][4]int{{B, 2, 2, 6}, {B, 2, 3, 7}, {B, 0, 3, 7}}},
+		{"lease-isolation-lite", [][4]int{{A, 1, 1, 5}, {B, 1, 2, 6}}},
 		// take, expire, re-take, contend: three holders of one (sender, lease)
 		{"triple-1", [][4]int{{A, 1, 1, 1}, {A, 1, 2, 6}, {A, 1, 3, 7}}},
 		{"triple-2", [][4]int{{B, 1, 1, 2}, {B, 1, 3, 5}, {B, 1, 4, 7}}},
@@ -582,26 +584,40 @@ type c11Config struct {
 }
 
 func c11Configs() []c11Config {
+	fixed := c11Scenarios()
+	byName := func(n string) int {
+		for i, sc := range fixed {
+			if sc.name == n {
+				return i
+			}
+		}
+		panic("c11: unknown scenario " + n)
+	}
 	if !ve.Thorough() {
 		return []c11Config{
-			{0, 0, true}, {1, 0, true}, {2, 0, true}, {3, 0, true}, {4, 0, true}, {5, 0, true}, {6, 0, true},
-			{1, 2, true}, {0, 2, false},
+			{byName("dup-windows"), 0, true},
+			{byName("lease-isolation-lite"), 0, true},
+			{byName("triple-1"), 0, true},
+			{byName("triple-2"), 0, true},
+			{byName("triple-1"), 2, true},
+			{byName("dup-windows"), 2, false},
 		}
 	}
+	// ordered so that a budget-capped run has seen every kind of exploration first
 	var cfgs []c11Config
-	nfixed := len(c11Scenarios())
+	nfixed := len(fixed)
 	for sc := 0; sc < nfixed; sc++ {
 		cfgs = append(cfgs, c11Config{sc, 0, true})
 	}
-	for sc := 0; sc < nfixed; sc++ {
-		cfgs = append(cfgs, c11Config{sc, 2, true})
-	}
-	for _, sc := range []int{0, 1, 2} {
-		cfgs = append(cfgs, c11Config{sc, 0, false}, c11Config{sc, 1, false})
+	for _, n := range []string{"dup-windows", "lease-succession", "triple-1"} {
+		cfgs = append(cfgs, c11Config{byName(n), 0, false}, c11Config{byName(n), 1, false})
 	}
 	npairs := len(c11PairScenarios())
 	for i := range c11TripleScenarios() {
 		cfgs = append(cfgs, c11Config{nfixed + npairs + i, 0, true})
+	}
+	for sc := 0; sc < nfixed; sc++ {
+		cfgs = append(cfgs, c11Config{sc, 2, true})
 	}
 	for i := 0; i < npairs; i++ {
 		cfgs = append(cfgs, c11Config{nfixed + i, 0, true})
